@@ -588,6 +588,121 @@ fn lockstep_temper(cfg: &TCfg, k: usize, m: usize) -> Result<(bool, u64, bool), 
     Ok((nontrivial, orig.get_total_swaps(), orig.get_total_swaps() > swaps_at_k))
 }
 
+
+// ------------------------------------------------------------------------------------------------
+// tempering containers that GROW: add_qmc_stepper interleaved with tempering steps
+// ------------------------------------------------------------------------------------------------
+#[derive(Clone, Copy, Debug, PartialEq)]
+enum GrowOp {
+    /// add replica number i of the configuration
+    Add(usize),
+    /// timesteps(1) + tempering_step()
+    Step,
+}
+
+fn show_ops(ops: &[GrowOp]) -> String {
+    ops.iter()
+        .map(|o| match o {
+            GrowOp::Add(i) => format!("A{}", i),
+            GrowOp::Step => "T".to_string(),
+        })
+        .collect::<Vec<_>>()
+        .join("")
+}
+
+impl TCfg {
+    fn replica(&self, i: usize) -> (G, f64) {
+        let (beta, sj, sg) = self.replicas[i];
+        let mut c = self.base.clone();
+        c.edges.iter_mut().for_each(|(_, j)| *j *= sj);
+        c.transverse *= sg;
+        c.seed = self.base.seed.wrapping_add(1000 * (i as u64 + 1));
+        (c.build(), beta)
+    }
+}
+
+fn apply_op(cfg: &TCfg, tc: &mut TC, op: GrowOp) {
+    match op {
+        GrowOp::Add(i) => {
+            let (g, beta) = cfg.replica(i);
+            tc.add_qmc_stepper(g, beta).unwrap();
+        }
+        GrowOp::Step => tc_step(tc),
+    }
+}
+
+/// `n0` replicas before the first step, then 1..3 steps between two adds, up to `cfg.replicas.len()` replicas, then
+/// two more steps.  The last add therefore always comes AFTER at least one tempering step.
+fn gen_grow_ops(gen: &mut SplitMix64, nfinal: usize, n0: usize) -> Vec<GrowOp> {
+    let mut ops: Vec<GrowOp> = (0..n0).map(GrowOp::Add).collect();
+    for i in n0..nfinal {
+        for _ in 0..(1 + gen.below(3)) {
+            ops.push(GrowOp::Step);
+        }
+        ops.push(GrowOp::Add(i));
+    }
+    ops.push(GrowOp::Step);
+    ops.push(GrowOp::Step);
+    ops
+}
+
+/// snapshot after the first k ops of the history (so also right after an add, and right after the step following
+/// an add), both forms; then the rest of the history and `m` further tempering steps in lock-step
+fn lockstep_grow(cfg: &TCfg, ops: &[GrowOp], k: usize, m: usize) -> Result<(bool, u64), String> {
+    let fresh = || {
+        let mut tc: TC = TemperingContainer::new(SplitMix64::new(cfg.seed));
+        for op in &ops[..k] {
+            apply_op(cfg, &mut tc, *op);
+        }
+        tc
+    };
+    let mut orig = fresh();
+    let mut a = tc_rt_with_rng(&orig).map_err(|e| format!("form a: {}", e))?;
+    let mut b = tc_rt_rngless(fresh()).map_err(|e| format!("form b: {}", e))?;
+    let mut c = fresh();
+    if let Some(d) = diff_tc(&obs_tc(&orig, false), &obs_tc(&a, false)) {
+        return Err(format!("right after restore (a) at op {}: {}", k, d));
+    }
+    if let Some(d) = diff_tc(&obs_tc(&orig, true), &obs_tc(&b, true)) {
+        return Err(format!("right after restore (b) at op {}: {}", k, d));
+    }
+    let rest: Vec<GrowOp> = ops[k..].iter().cloned().chain(std::iter::repeat(GrowOp::Step).take(m)).collect();
+    // the RNG-less copy has empty caches until the first tempering step that actually runs (>= 2 replicas)
+    let mut b_caches_known = false;
+    let mut c_caches_known = true;
+    for (s, op) in rest.iter().enumerate() {
+        for tc in [&mut orig, &mut a, &mut b, &mut c] {
+            apply_op(cfg, tc, *op);
+        }
+        let rebuilt = *op == GrowOp::Step && orig.graph_ref().len() >= 2;
+        let reset = matches!(op, GrowOp::Add(_));
+        b_caches_known = b_caches_known || rebuilt || reset;
+        c_caches_known = c_caches_known || rebuilt || reset;
+        let full = obs_tc(&orig, false);
+        let stripped = obs_tc(&orig, true);
+        if let Some(d) = diff_tc(&full, &obs_tc(&a, false)) {
+            return Err(format!("form a snapshot at op {} then op +{} ({:?}): {}", k, s + 1, op, d));
+        }
+        let (ob, xb) = if b_caches_known { (&full, obs_tc(&b, false)) } else { (&stripped, obs_tc(&b, true)) };
+        if let Some(d) = diff_tc(ob, &xb) {
+            return Err(format!("form b snapshot at op {} then op +{} ({:?}): {}", k, s + 1, op, d));
+        }
+        let (oc, xc) = if c_caches_known { (&full, obs_tc(&c, false)) } else { (&stripped, obs_tc(&c, true)) };
+        if let Some(d) = diff_tc(oc, &xc) {
+            return Err(format!("form c (cycled) snapshot at op {} then op +{} ({:?}): {}", k, s + 1, op, d));
+        }
+        // (c): snapshot-restore after every op, alternating the forms
+        if s % 2 == 0 {
+            c = tc_rt_rngless(c)?;
+            c_caches_known = false;
+        } else {
+            c = tc_rt_with_rng(&c)?;
+        }
+    }
+    let nontrivial = orig.graph_ref().iter().any(|(g, _)| g.get_n() > 0);
+    Ok((nontrivial, orig.get_total_swaps()))
+}
+
 // ------------------------------------------------------------------------------------------------
 // JSON keys of the real serde output
 // ------------------------------------------------------------------------------------------------
@@ -745,4 +860,38 @@ fn main() {
     stat("temper.configs", ntemper);
     stat("temper.snapshots_followed_by_successful_swaps", after_swap);
     stat("temper.max_total_swaps", total_swaps);
+
+    // growing containers: add_qmc_stepper interleaved with tempering steps, final sizes 3..6 (both parities)
+    let ngrow = if a.thorough { 32 } else { 12 };
+    let mut grow_swaps = 0u64;
+    let mut grow_cases = 0u64;
+    for i in 0..ngrow {
+        let nfinal = 3 + i % 4;
+        let n0 = 1 + (i / 4) % 2; // 1 or 2 replicas before the first step
+        let mut cfg = gen_tcfg(&mut gen, 8 + i, a.thorough);
+        while cfg.replicas.len() < nfinal {
+            let r = cfg.replicas[cfg.replicas.len() - 1];
+            cfg.replicas.push((r.0 + 0.5, r.1, r.2));
+        }
+        cfg.replicas.truncate(nfinal);
+        let ops = gen_grow_ops(&mut gen, nfinal, n0);
+        let mg = if a.thorough { 16 } else { 12 };
+        for k in 0..=ops.len() {
+            let r = catch(|| lockstep_grow(&cfg, &ops, k, mg));
+            let (nt, verdict) = match r {
+                Ok(Ok((nt, swaps))) => {
+                    grow_swaps = grow_swaps.max(swaps);
+                    (nt, Ok(()))
+                }
+                Ok(Err(e)) => (true, Err(e)),
+                Err(p) => (true, Err(format!("panic: {}", p))),
+            };
+            grow_cases += 1;
+            let out = if verdict.is_ok() { "same" } else { "diff" };
+            emit(nt, &format!("temper-grow {} ops={} k={} m={}", cfg.show(), show_ops(&ops), k, mg), out, Some(verdict));
+        }
+    }
+    stat("temper_grow.configs", ngrow);
+    stat("temper_grow.cases", grow_cases);
+    stat("temper_grow.max_total_swaps", grow_swaps);
 }
